@@ -76,6 +76,11 @@ def select__pi_kind_test(self: XPathFunction, context: ta.ContextType = None) \
 def nud__pi_kind_test(self: XPathFunction) -> XPathFunction:
     self.parser.advance('(')
     if self.parser.next_token.symbol != ')':
+        tk = self.parser.next_token
+        if tk.symbol not in ('(name)', '(string)') and \
+                self.parser.name_pattern.match(tk.symbol) is not None:
+            # An NCName that is also a registered symbol (e.g. 'pi', 'text', 'id')
+            self.parser.next_token = tk.as_name()
         self.parser.next_token.expected('(name)', '(string)')
         self[0:] = self.parser.expression(5),
     self.parser.advance(')')
